@@ -170,7 +170,7 @@ class Interp:
         t = time.time(); self.stats['queries'] += 1
         r = self.solver.check(*([extra] if extra is not None else []))
         dt = time.time() - t; self.stats['solver_s'] += dt
-        if dt > 5 and os.environ.get('VERIF_SLOWQ'):
+        if dt > float(os.environ.get('VERIF_SLOWQ') or 1e9):
             sys.stderr.write('SLOW QUERY %.1fs result=%s extra=%s\n  pc=%s\n' % (dt, r, extra, [str(c)[:200] for c in self.pc][-12:]))
         if r == z3.unknown:
             # retry once from scratch (fresh solver, whole path condition) before giving up on the path
@@ -696,6 +696,10 @@ class Interp:
         if f is None or not f.defined:
             mdl = self.models.get(name[1:])
             if mdl is None: raise Unsupported('no model for external ' + name)
+            if f is not None and any(isinstance(a, Sym) for a in args):
+                # library models take concrete pointers: a symbolic address is resolved by forking over its feasible values
+                args = [self.concretize(a, 'pointer argument of ' + name) if isinstance(a, Sym) and k < len(f.params) and isinstance(f.params[k][0], PtrTy) else a
+                        for k, a in enumerate(args)]
             return mdl(self, *args)
         self.stats['funcs'].add(name[1:])
         fr = {}
@@ -1018,6 +1022,14 @@ class Interp:
                 except Unsupported: mdl = None
                 if len(results) < max_findings:
                     results.append(dict(kind=e.kind, msg=e.msg, inputs=self.cex(mdl) if mdl is not None else None, decisions=len(self.trace)))
+            except CxxThrow as e:
+                st['paths'] += 1
+                mdl = None
+                try:
+                    if self.check(): mdl = self.get_model()
+                except Unsupported: pass
+                if len(results) < max_findings:
+                    results.append(dict(kind='uncaught-exception', msg='C++ exception %s leaves the entry point' % str(e.ti).lstrip('@'), inputs=self.cex(mdl) if mdl is not None else None, decisions=len(self.trace)))
             except (Unsupported, Abort) as e:
                 st['unsupported'].append(str(e)); st['paths'] += 1
             finally:
